@@ -1,1 +1,3 @@
-From TT Require Import Model.Doc Model.Lcd Spec.LcdSpec.
+(* C16: the proof cone. *)
+From TT Require Export Model.Doc Gen.StyleTables Model.Isd Model.Lcd Spec.IsdSpec Spec.LcdSpec Model.LcdCases.
+From TT Require Export Proofs.C16.Basics Proofs.C16.Prov Proofs.C16.Static Proofs.C16.Refs Proofs.C16.Idem.
